@@ -17,7 +17,8 @@ run1() {
     if echo "$out" | grep -q PATCH-FAILED; then res="$res $q:PATCH-FAILED"
     elif [ $rc -ne 0 ] && echo "$out" | grep -q "^VIOLATION"; then
       ob=$(echo "$out" | grep "^VIOLATION" | head -1 | sed 's/.*obligation=\([^ ]*\).*/\1/')
-      res="$res $q:CAUGHT($ob)"
+      nv=$(echo "$out" | grep -c "^VIOLATION"); nc=$(echo "$out" | grep "^VIOLATION" | grep -vc "no-failing-input-found")
+      res="$res $q:CAUGHT($ob) replayed=$nc/$nv"
     elif echo "$out" | grep -q UNDECIDED; then res="$res $q:UNDECIDED"
     else res="$res $q:MISSED"; fi
   done
